@@ -31,6 +31,11 @@ pub struct Caller {
 pub struct Scn {
     pub callers: Vec<Caller>,
     pub knobs: SchedKnobs,
+    /// every caller clones the one owner handle when it arrives and drops its clone as soon as
+    /// it has its response future (`oneshot` style); the owner itself is dropped right after the
+    /// last arrival, so that only response futures are left alive
+    #[serde(default)]
+    pub owner_dropped: bool,
 }
 
 pub fn gen(rng: &mut Rng) -> Scn {
@@ -57,6 +62,7 @@ pub fn gen(rng: &mut Rng) -> Scn {
     Scn {
         callers,
         knobs: SchedKnobs::gen(rng, faulty, 60),
+        owner_dropped: rng.chance(1, 5),
     }
 }
 
@@ -91,19 +97,37 @@ pub fn run(s: &Scn, ctx: &mut RunCtx) -> RunOutput {
         });
         let layer = CoalesceLayer::new(|r: &Req| CKey(r.key));
         let base = layer.layer(SimInner::new(0));
+        let owner = std::rc::Rc::new(std::cell::RefCell::new(Some(base.clone())));
+        let lazy = scn.owner_dropped;
+        let taken = std::rc::Rc::new(std::cell::Cell::new(0usize));
+        let n_callers = scn.callers.len();
         let mut defs = vec![];
         for (i, c) in scn.callers.iter().enumerate() {
-            let svc = base.clone();
+            let mut early = if lazy { None } else { Some(base.clone()) };
+            let owner = owner.clone();
+            let taken = taken.clone();
             let req = Req { id: i as u32, key: c.key };
             let hold = c.hold_ms;
             let drop_unpolled = c.drop_unpolled_after_ms;
             let make: Box<dyn FnOnce() -> LocalFut> = Box::new(move || {
                 Box::pin(async move {
-                    let mut svc = svc;
+                    let mut svc = match early.take() {
+                        Some(s) => s,
+                        None => owner.borrow().as_ref().expect("owner handle alive at every arrival").clone(),
+                    };
                     let r: Result<_, CoalesceError<SimErr>> = match svc.ready().await {
                         Err(e) => Err(e),
                         Ok(sv) => {
                             let mut f = Box::pin(sv.call(req));
+                            if lazy {
+                                drop(svc);
+                                taken.set(taken.get() + 1);
+                                if taken.get() == n_callers {
+                                    // the last arrival: the owner goes away, only futures stay
+                                    world::fault("owner_handle_dropped");
+                                    *owner.borrow_mut() = None;
+                                }
+                            }
                             if let Some(d) = drop_unpolled {
                                 world::fault("drop_unpolled");
                                 if d > 0 {
@@ -133,6 +157,7 @@ pub fn run(s: &Scn, ctx: &mut RunCtx) -> RunOutput {
             });
             defs.push(TaskDef { start_ms: c.start_ms, make, cancel: c.cancel.to_cancel() });
         }
+        drop(base);
         defs
     };
     let mut step = |_k| {
